@@ -209,7 +209,7 @@ func init() {
 			if n == 0 {
 				return nil, fmt.Errorf("no usable corpus package")
 			}
-			if err := c.repoHarness("generator", "zz_verif_c13.go", c13GeneratorHarness(tierInt(c, 4, 6))); err != nil {
+			if err := c.repoHarness("generator", "zz_verif_c13.go", c13GeneratorHarness(tierInt(c, 4, 5))); err != nil {
 				return nil, err
 			}
 			return []RunSpec{repoRunSpec(c, "generator", "VerifC13"), stdRunSpec(c, "VerifC13")}, nil
